@@ -130,6 +130,47 @@ def late_directory(ctx, viol, stats):
             pr.destroy()
 
 
+def argv_level(ctx, viol, stats):
+    """The command line a script is started with (builder.rs: `sh -e[v][x] file $1 $2 $3`, or the words of a `#!/` first
+    line followed by `file $1 $2 $3`) against `Argv.argv`.  An interpreter `pa` in the project records the words it was
+    started with; shell-run scripts record /proc/$$/cmdline."""
+    from proj import Project
+    pr = Project()
+    try:
+        os.makedirs(pr.path("sub"))
+        pa = pr.path("pa")
+        pr.write("pa", '#!/bin/sh\n{ printf "%s\\n" "$0"; for a in "$@"; do printf "%s\\n" "$a"; done; } >"$VERIF_ARGS"\necho out\n')
+        os.chmod(pa, 0o755)
+        dump = 'tr "\\0" "\\n" </proc/$$/cmdline >"$VERIF_ARGS"\necho out\n'
+        firsts = ["#!%s" % pa, "#!%s -x y" % pa, "  #!%s lead" % pa, "#!%s  two" % pa, "#!%s trail  " % pa, "#! %s" % pa, "# plain", "#!bin/sh", "", "#!%s -e\t-u" % pa]
+        n = 0
+        for tgt, dofile, a1, a2, a3 in (("t", "t.do", "t", "t", "t.redo.tmp"), ("sub/u.x", "default.x.do", "sub/u.x", "sub/u", "sub/u.x.redo.tmp")):
+            for fl in firsts:
+                for flags in ((), ("-x",), ("-v", "-x")):
+                    if flags and fl not in (firsts[0], firsts[6]):
+                        continue
+                    pr.write(dofile, fl + "\n" + dump)
+                    out = pr.path("args.%d" % n)
+                    n += 1
+                    rc, o, e = pr.run(["redo"] + list(flags) + [tgt], env={"VERIF_ARGS": out})
+                    got = open(out).read().split("\n")[:-1] if os.path.exists(out) else None
+                    req = "argv %d %d %s %s %s %s %s" % (1 if "-v" in flags else 0, 1 if "-x" in flags else 0, hx(fl + "\n"), hx(dofile), hx(a1), hx(a2), hx(a3))
+                    want = [unhx(w).decode() for w in run_lines(MODEL, [req])[0].split(",")]
+                    stats["argv"] = stats.get("argv", 0) + 1
+                    ok = got == want
+                    if got is not None and not ok and want[0] == "sh" and got[1:] == want[1:] and got[0].endswith("sh"):
+                        ok = True        # argv[0] `sh`: /proc may show the resolved shell
+                    if got is None:
+                        ok = rc != 0 and not os.access(want[0], os.X_OK)      # the model's interpreter word is not runnable
+                    if not ok:
+                        p = write_replay("C13", "argv", dict(kind="model-vs-impl", layer="Argv.argv", first_line=fl, flags=flags, target=tgt, model=want, impl=got, rc=rc, stderr=e[-400:]))
+                        wrong_args = got is not None and got[-3:] != [a1, a2, a3]
+                        viol.append(Violation("C13", p, "script for %s with first line %r started as %r, model %r" % (tgt, fl, got, want), no_input=not wrong_args))
+                        return
+    finally:
+        pr.destroy()
+
+
 def run(ctx):
     rng = random.Random(ctx["seed"])
     thorough = ctx["tier"] == "thorough"
@@ -164,6 +205,8 @@ def run(ctx):
         samples = process_level(ctx, rng, viol, stats)
         if not viol:
             late_directory(ctx, viol, stats)
+        if not viol:
+            argv_level(ctx, viol, stats)
     ncand = sum(len(parse_cands(x) or []) for x in impl)
     return dict(evaluations=len(lines) + stats["placements"] * 2 + stats["reselect"] * 2,
                 distinct_nontrivial=len(set(l for l, r in zip(lines, impl) if r != "none" and r.count(",") >= 2)),
